@@ -56,10 +56,12 @@ theorem build_kinv (w : World) (cfg : Cfg) (hr : cfg.removeFirst = true) (hp : c
     exact buildNodes_kinv w.S cfg hr hp always _ ts _ e st hb hk
   · rw [(build_not_loaded w cfg always ts hl).2.1]; exact hk
 
-theorem apply_cache_of_not_build (w : World) (cfg : Cfg) (op : Op) (h : ∀ a ts, op ≠ .build a ts) :
-    (w.apply cfg op).cache = w.cache := by
+theorem apply_cache_of_not_build (w : World) (cfg : Cfg) (op : Op) (h : ∀ a ts, op ≠ .build a ts)
+    (h' : op ≠ .cacheExpire) : (w.apply cfg op).cache = w.cache := by
   cases op with
   | build a ts => exact absurd rfl (h a ts)
+  | cacheExpire => exact absurd rfl h'
+  | outLink o t => simp only [World.apply]; split <;> rfl
   | srcSet n st => rfl
   | srcDel n => rfl
   | srcMove a b => simp only [World.apply]; split <;> rfl
@@ -82,14 +84,16 @@ theorem reach_kinv {cfg : Cfg} (hr : cfg.removeFirst = true) (hp : cfg.putFirst 
   | step op _ ih =>
     cases op with
     | build a ts => exact build_kinv _ cfg hr hp a ts ih
-    | srcSet n st => rw [apply_cache_of_not_build _ _ _ (by intro a ts h; cases h)]; exact ih
-    | srcDel n => rw [apply_cache_of_not_build _ _ _ (by intro a ts h; cases h)]; exact ih
-    | srcMove a b => rw [apply_cache_of_not_build _ _ _ (by intro a ts h; cases h)]; exact ih
-    | setRules rs => rw [apply_cache_of_not_build _ _ _ (by intro a ts h; cases h)]; exact ih
-    | outDel o => rw [apply_cache_of_not_build _ _ _ (by intro a ts h; cases h)]; exact ih
-    | outCorrupt o size => rw [apply_cache_of_not_build _ _ _ (by intro a ts h; cases h)]; exact ih
-    | outChmod o mode => rw [apply_cache_of_not_build _ _ _ (by intro a ts h; cases h)]; exact ih
-    | outObstruct o => rw [apply_cache_of_not_build _ _ _ (by intro a ts h; cases h)]; exact ih
-    | outRestore o => rw [apply_cache_of_not_build _ _ _ (by intro a ts h; cases h)]; exact ih
+    | srcSet n st => rw [apply_cache_of_not_build _ _ _ (by intro a ts h; cases h) (by intro h; cases h)]; exact ih
+    | srcDel n => rw [apply_cache_of_not_build _ _ _ (by intro a ts h; cases h) (by intro h; cases h)]; exact ih
+    | srcMove a b => rw [apply_cache_of_not_build _ _ _ (by intro a ts h; cases h) (by intro h; cases h)]; exact ih
+    | setRules rs => rw [apply_cache_of_not_build _ _ _ (by intro a ts h; cases h) (by intro h; cases h)]; exact ih
+    | outDel o => rw [apply_cache_of_not_build _ _ _ (by intro a ts h; cases h) (by intro h; cases h)]; exact ih
+    | outCorrupt o size => rw [apply_cache_of_not_build _ _ _ (by intro a ts h; cases h) (by intro h; cases h)]; exact ih
+    | outChmod o mode => rw [apply_cache_of_not_build _ _ _ (by intro a ts h; cases h) (by intro h; cases h)]; exact ih
+    | outObstruct o => rw [apply_cache_of_not_build _ _ _ (by intro a ts h; cases h) (by intro h; cases h)]; exact ih
+    | outRestore o => rw [apply_cache_of_not_build _ _ _ (by intro a ts h; cases h) (by intro h; cases h)]; exact ih
+    | outLink o t => rw [apply_cache_of_not_build _ _ _ (by intro a ts h; cases h) (by intro h; cases h)]; exact ih
+    | cacheExpire => intro d b hb; simp [World.apply, AL.get] at hb
 
 end PubModel.C10
